@@ -18,7 +18,10 @@ RULE = ('cases = monitored well-formed chart with logging probes, send (with del
         'of the property chart carries the step time; (3) fault enumeration: for the k-th '
         'meta-event (quick: <=10 sampled k; thorough: every k) a property chart turning final at '
         'its k-th event makes that execute_once raise PropertyStatechartError with the code log '
-        'equal to the reference log truncated right after meta-event k; (4) never-final property '
+        'equal to the reference log truncated right after meta-event k; (3b) a property chart '
+        'with a time-out (the J-th meta-event named X arms a delayed self-event of delay D; no '
+        'eventless transitions) must fail exactly at the first meta-event whose step time has '
+        'reached the due time, or never; (4) never-final property '
         'charts leave the run signature equal to the unmonitored run; in 40% of the cases the '
         'monitored chart runs with contracts on and carries state invariants / transition post-'
         'conditions and invariants that record sent(x)/received(x), and those records belong to '
@@ -46,6 +49,9 @@ def strategy(tier):
             if draw(st.floats(0, 1)) < 0.15:
                 o['extra' if 'id' in o else 'extra_entry'] = ['tick(0.25)']
         ks = None if big else draw(st.lists(st.floats(0, 0.999), min_size=4, max_size=10))
+        deadline = [draw(st.sampled_from(['step started', 'event consumed', 'state entered',
+                                          'transition processed', 'step ended', 'event sent'])),
+                    draw(st.integers(1, 3)), draw(st.sampled_from([0, 0.25, 1, 2]))]
         order = draw(st.sampled_from(['recorder-first', 'final-first']))
         # contracts of the monitored chart that read sent()/received() (evaluated, always true)
         sprobe = None
@@ -53,7 +59,8 @@ def strategy(tier):
             sprobe = {'states': [x['sid'] for x in spec['states'] if draw(st.floats(0, 1)) < 0.5],
                       'transitions': [t['id'] for t in spec['transitions']
                                       if draw(st.floats(0, 1)) < 0.4]}
-        return {'spec': spec, 'ops': ops, 'ks': ks, 'order': order, 'sprobe': sprobe}
+        return {'spec': spec, 'ops': ops, 'ks': ks, 'order': order, 'sprobe': sprobe,
+                'deadline': deadline}
     return cases()
 
 
@@ -79,6 +86,23 @@ def final_at_k_chart():
     for n in META:
         sc.add_transition(Transition('a', None, event=n, action='n = n + 1'))
     sc.add_transition(Transition('a', 'f', guard='n >= K'))
+    return sc
+
+
+def deadline_chart():
+    """property statechart with a time-out: the J-th meta-event named X arms a delayed self-event
+    (delay D); consuming it leads to the final state.  No eventless transition, transitions on X
+    and on the self-event only."""
+    from sismic.model import Statechart, CompoundState, BasicState, FinalState, Transition
+    sc = Statechart('deadline')
+    sc.add_state(CompoundState('r', initial='a'), None)
+    sc.add_state(BasicState('a'), 'r')
+    sc.add_state(BasicState('w'), 'r')
+    sc.add_state(FinalState('f'), 'r')
+    sc.add_transition(Transition('a', None, event='X', guard='n + 1 < J', action='n = n + 1'))
+    sc.add_transition(Transition('a', 'w', event='X', guard='n + 1 >= J',
+                                 action="send('deadline', delay=D)"))
+    sc.add_transition(Transition('w', 'f', event='deadline'))
     return sc
 
 
@@ -111,7 +135,7 @@ def add_sprobes(spec, sprobe):
     return spec
 
 
-def run(spec, ops, monitor, k=None, order='recorder-first', contracts=False):
+def run(spec, ops, monitor, k=None, order='recorder-first', contracts=False, deadline=None):
     """monitor: None (unmonitored) | 'record' | 'final'.  Returns dict."""
     from sismic.interpreter import Interpreter
     from sismic.exceptions import PropertyStatechartError
@@ -137,7 +161,16 @@ def run(spec, ops, monitor, k=None, order='recorder-first', contracts=False):
                 final_at_k_chart(),
                 interpreter_klass=lambda sc, clock: Interpreter(
                     sc, clock=clock, initial_context={'n': 0, 'K': k}))
-        if monitor == 'final':
+        if monitor == 'deadline':
+            X, J, D = deadline
+            dsc = deadline_chart()
+            for t in dsc.transitions:
+                if t.event == 'X':
+                    t.event = X
+            d.interp.bind_property_statechart(
+                dsc, interpreter_klass=lambda sc, clock: Interpreter(
+                    sc, clock=clock, initial_context={'n': 0, 'J': J, 'D': D}))
+        elif monitor == 'final':
             if order == 'recorder-first':
                 bind_rec()
                 bind_final()
@@ -284,16 +317,64 @@ def oracle(case):
     labels['meta-events (reference runs)'] = M
     if viol or M == 0:
         return {'violations': viol, 'labels': labels, 'keys': keys}
+    step_of = {}
+    for i, (h0, h1, p0, p1) in enumerate(ref['marks']):
+        for j in range(p0, p1):
+            step_of[j] = i
+    # (3b) a property chart with a time-out (delayed self-event, no eventless transition): it
+    # must fail at the first meta-event whose step time has reached the due time
+    if case.get('deadline'):
+        X, J, D = case['deadline']
+        seq = ref['plog']
+        occ = [q for q, (n_, t_, d_) in enumerate(seq) if n_ == X]
+        f = None
+        if len(occ) >= J:
+            a = occ[J - 1]
+            due = seq[a][1] + D
+            f = a if D == 0 else next((q for q in range(a + 1, len(seq)) if seq[q][1] >= due),
+                                      None)
+        r = run(spec, case['ops'], 'deadline', contracts=contracts, deadline=case['deadline'])
+        labels['time-out property charts'] = 1
+        det = {'deadline': case['deadline'], 'expected_meta_event_index': f}
+        if f is None:
+            if r['raised'] is not None:
+                det['exc'] = r['raised']['exc']
+                det['msg'] = str(r['raised']['exc_obj'])[:200]
+                viol.append({'prop': PROP, 'kind': 'time-out-property-failed-without-cause',
+                             'step': len(r['sig']) - 1, 'detail': det})
+            elif r['log'] != ref['log']:
+                viol.append({'prop': PROP, 'kind': 'monitoring-changes-run', 'step': None,
+                             'detail': det})
+        else:
+            labels['time-out property charts that must fail'] = 1
+            want_step = step_of[f]
+            pos_f = ref['heard'][f][2]
+            det.update({'meta_event': list(ref['heard'][f][:2]), 'expected_step': want_step})
+            if r['raised'] is None:
+                viol.append({'prop': PROP, 'kind': 'property-failure-not-raised',
+                             'step': want_step, 'detail': det})
+            elif r['raised']['exc'] != 'PropertyStatechartError':
+                det['exc'] = r['raised']['exc']
+                det['msg'] = str(r['raised']['exc_obj'])[:200]
+                viol.append({'prop': PROP, 'kind': 'wrong-exception', 'step': want_step,
+                             'detail': det})
+            elif len(r['sig']) - 1 != want_step:
+                det['raised_at'] = len(r['sig']) - 1
+                viol.append({'prop': PROP, 'kind': 'property-failure-raised-at-wrong-step',
+                             'step': want_step, 'detail': det})
+            elif r['log'] != ref['log'][:pos_f]:
+                det['code_after_failure'] = r['log'][pos_f:pos_f + 5]
+                det['prefix_equal'] = r['log'][:pos_f] == ref['log'][:pos_f]
+                viol.append({'prop': PROP, 'kind': 'monitored-code-ran-after-property-failure',
+                             'step': want_step, 'detail': det})
+        if viol:
+            return {'violations': viol, 'labels': labels, 'keys': keys}
     # (3) fail fast at the k-th meta-event
     if case.get('ks') is None:
         ks = list(range(1, M + 1))
     else:
         ks = sorted(set(1 + int(f * M) for f in case['ks']))
     h = sha([case['spec'], case['ops']])
-    step_of = {}
-    for i, (h0, h1, p0, p1) in enumerate(ref['marks']):
-        for j in range(p0, p1):
-            step_of[j] = i
     for k in ks:
         r = run(spec, case['ops'], 'final', k=k, order=case.get('order', 'recorder-first'),
                 contracts=contracts)
